@@ -209,8 +209,66 @@ def check_select(case, ev):
     ev.case(case, bool(aux) and any(pr for pr in prios), cl)
 
 
+@st.composite
+def narrow_config_case(draw, tier):
+    """a configured polyhedron built directly (explicit variables, no configurator) and held in a narrow integer type, asked with
+    MANY distinct priority levels in one request: the compressed weights (1, 2, 4, ... after the defaults) leave the range
+    of int8 / int16 although every matrix entry fits it"""
+    ncols = draw(st.integers(6, 12))
+    vids = ["v%02d" % j for j in range(ncols)]
+    nrows = draw(st.integers(1, 4))
+    m = [[draw(st.integers(-2, 1))] + [draw(st.sampled_from([0, 0, 1, -1])) for _ in range(ncols)] for _ in range(nrows)]
+    k = draw(st.integers(3, min(ncols, 10)))
+    chosen = list(draw(st.permutations(vids)))[:k]
+    levels = list(range(1, k + 1))
+    if draw(st.booleans()):
+        levels[-1] = levels[-2]          # a tie at the top
+    pr = [[v, lv * draw(st.sampled_from([1, 1, -1]))] for v, lv in zip(chosen, levels)]
+    pr = list(draw(st.permutations(pr)))
+    return {"m": m, "vids": vids, "prios": [pr], "dtype": draw(st.sampled_from(["int8", "int8", "int16", "int32", None])),
+            "solver": draw(st.sampled_from(["marker", "exact"]))}
+
+
+def check_narrow_config(case, ev):
+    import numpy as np
+    import puan
+    import puan.ndarray as pnd
+    variables = [puan.variable.support_vector_variable()] + [puan.variable(v, (0, 1)) for v in case["vids"]]
+    kw = {"dtype": getattr(np, case["dtype"])} if case["dtype"] else {}
+    poly = call(pnd.ge_polyhedron_config, case["m"], variables=variables, what="ge_polyhedron_config construction", **kw)
+    ids = list(case["vids"])
+    prios = [dict((k_, v_) for k_, v_ in pr) for pr in case["prios"]]
+    log = []
+    solver = solvers.marker(log) if case["solver"] == "marker" else solvers.exact(log, 5000)
+    res = list(call(poly.select, *prios, solver=solver, what="ge_polyhedron_config.select"))
+    if len(log) != 1 or len(log[0]["objectives"]) != len(prios) or len(res) != len(prios):
+        raise Violation("solver not called once with one objective per priority dictionary")
+    for pr, vec in zip(prios, log[0]["objectives"]):
+        vec = [int(x) for x in vec]
+        if len(vec) != len(ids):
+            raise Violation(f"objective has {len(vec)} entries for {len(ids)} columns")
+        w = dict(zip(ids, vec))
+        for i in ids:
+            p_ = pr.get(i, 0)
+            if p_ and (w[i] > 0) != (p_ > 0) or (p_ and w[i] == 0):
+                raise Violation(f"priority {i!r}={p_} got objective weight {w[i]} (matrix dtype {case['dtype']}); objective {w}")
+            if not p_ and w[i] > 0:
+                raise Violation(f"column {i!r} without priority got positive weight {w[i]}; objective {w}")
+        for i in pr:
+            for j in pr:
+                if abs(pr[i]) > abs(pr[j]) and not abs(w[i]) > abs(w[j]):
+                    raise Violation(f"priority |{pr[i]}| on {i!r} does not outweigh |{pr[j]}| on {j!r}: weights {w[i]} vs {w[j]} (matrix dtype {case['dtype']})")
+                if abs(pr[i]) == abs(pr[j]) and abs(w[i]) != abs(w[j]):
+                    raise Violation(f"equal priorities on {i!r} and {j!r} got different weights {w[i]} vs {w[j]}")
+            lower = sum(abs(w[j]) for j in ids if abs(pr.get(j, 0)) < abs(pr[i]))
+            if not abs(w[i]) > lower:
+                raise Violation(f"weight {w[i]} of {i!r} (priority {pr[i]}) does not dominate the sum {lower} of all lower weights; objective {w}; "
+                                f"matrix dtype {case['dtype']}")
+    ev.case(case, len(prios[0]) >= 5, ["dtype=" + str(case["dtype"]), "levels>=7" if len({abs(v) for v in prios[0].values()}) >= 7 else "levels<7"])
+
+
 def parts(tier):
-    return [
+    return [Part("narrow_config", strategy=lambda t: narrow_config_case(t), check=check_narrow_config, quick=(1, 250), thorough=(2, 3000)), 
         Part("solve", strategy=lambda t: solve_case(t), check=check_solve, quick=(5, 400), thorough=(10, 2500)),
         Part("select", strategy=lambda t: select_case(t), check=check_select, quick=(3, 400), thorough=(6, 2500)),
     ]
